@@ -13,11 +13,17 @@ EXPLANATION = ('theorems: iadd/isub/ineg/iabs/idiv/imod/bitwise/gt/eq specs over
                '; source tie: the arithmetic of Integer.idiv_int / imod behind the zero test is translated '
                'mechanically from the current Python AST into PcbV.Gen.Translated.idivCore / imodCore '
                '(gen/py2lean.py), proved equal to the model (translated_idiv_eq, translated_imod_eq) and compared '
-               'with the real methods (vlib/translated.py)')
+               'with the real methods (vlib/translated.py)'
+               '; source tie, part 2: the byte-level code of Integer.ineg / iadd / gt is translated mechanically '
+               '(PcbV.Gen.Translated.inegCore / iaddCore / igtCore), proved equal to the model on all 16-bit '
+               'patterns (translated_ineg_eq, translated_iadd_eq, translated_igt_eq) and compared with the real '
+               'methods')
 TRUSTED_BASE = ['model PcbV.Model.IntOps is a hand transcription of numbers.py:Integer and values.py bitwise operators',
                 'translator gen/py2lean.py + PcbV.PyInt (Python int semantics of // % abs and ^ & | in Lean), validated by '
                 'vlib/translated.py against the real idiv_int / imod and Python\'s own operators; it covers these two '
-                'methods only']
+                'methods only',
+                'for ineg / iadd / gt the translator glue (gen/tables_py2lean.py) fixes the conventions: buffer bytes '
+                'as parameters, the stored byte pair as lo+256*hi, raise OVERFLOW as -6']
 ASSUMPTIONS = ['struct.pack/unpack <h/<H behave as documented']
 
 
@@ -285,6 +291,7 @@ def basic_level(ctx, n_expr, n_for):
 
 
 def run(ctx):
+    translated.check_intbytes(ctx)
     translated.check_intdiv(ctx)
     impl = Impl()
     rng = ctx.rng
